@@ -23,8 +23,9 @@ GeoOf(r) == [minSeg |-> r.minSeg, maxSeg |-> r.maxSeg, ax |-> r.ax, minView |-> 
 IsFile(r) == r.backing \in {"stream", "interfile", "hdrstream"}
 \* the in-memory store keeps its data "in the same order as what is used by copy_to and fill_from"
 LayoutOf(r) == IF r.backing = "memory" THEN StdLayout(GeoOf(r)) ELSE [byView |-> r.byView, seq |-> r.seq]
-\* Interfile headers cannot describe TOF data in Segment_AxialPos_View_TangPos order: announced error()
-HeaderSupports(r) == ~(r.maxTof > r.minTof /\ ~r.byView)
+\* Interfile headers cannot describe TOF data (data of a TOF-capable acquisition, whatever the TOF mashing) in
+\* Segment_AxialPos_View_TangPos order: announced error() - allowed there, nowhere else
+HeaderSupports(r) == ~(~r.byView /\ r.tofReady)
 
 Zeros(n) == [i \in 1..n |-> 0]
 
@@ -179,8 +180,20 @@ Explains(r) ==
 \* C02-examinfo: a Reopen / WriteToFile that is fine in every other respect but loses calibration factor / study start time
 \* C02-oorseg: get_viewgram for a segment number outside the range returns an empty viewgram without error
 \*   (nothing else wrong: no data touched)
+\* C02-tof1hdr: TOF-capable scanner with TOF mashing that leaves ONE TOF bin: the header writer treats the data as non-TOF
+\*   (no "TOF mashing factor": the geometry comes back as non-TOF) and, when a Timing_... storage order was asked for,
+\*   writes a 4-dimensional header with a 5th axis that cannot be read back.  Everything that can still be compared
+\*   (exam information, layout, values, data file) must be right.
+Tof1 == c.tofReady /\ NK(g) = 1
+Tof1Rest(r) ==
+  \/ r.err /\ c.timingOrder
+  \/ /\ ~r.err /\ ExamCoreEq(r.exam0, r.exam)
+     /\ (r.e = "Reopen" => LayoutEq(r))
+     /\ IF r.verr THEN r.e = "Reopen" /\ Len(r.file) < c.n ELSE ReadOk(store, LAMBDA b : TRUE, LAMBDA b : stdT[b] + 1, r.vals, c.n)
 Classify(r) ==
-  IF c # NoCfg /\ ((r.e = "Reopen" /\ ReopenCore(r)) \/ (r.e = "WriteToFile" /\ WriteToFileCore(r)))
+  IF c # NoCfg /\ Tof1 /\ r.e \in {"Reopen", "WriteToFile"} /\ (r.e = "Reopen" \/ ~c.fresh) /\ Tof1Rest(r) /\ ObsOk(r, c, store, posT)
+  THEN "C02-tof1hdr"
+  ELSE IF c # NoCfg /\ ((r.e = "Reopen" /\ ReopenCore(r)) \/ (r.e = "WriteToFile" /\ WriteToFileCore(r)))
      /\ ObsOk(r, c, store, posT) /\ r.examx # r.examx0
      /\ (r.examx0.calib > 0 \/ r.examx0.start > 0) THEN "C02-examinfo"
   ELSE IF c # NoCfg /\ r.e = "GetView" /\ ~SegOk(g, r.seg) /\ ViewOk(g, r.view) /\ TofOk(g, r.tof) /\ ~r.err /\ r.vals = << >>
